@@ -60,8 +60,8 @@ def _mc(ctx):
 
 
 def _gen(ctx):
-    n_tlc = 150 if ctx.quick else 2000
-    n_rnd = 350 if ctx.quick else 6000
+    n_tlc = 150 if ctx.quick else 1500
+    n_rnd = 350 if ctx.quick else 5000
     out = []
     for k, containers in enumerate([['c1', 'c2'], ['c1', 'c2', 'c3']]):
         mod, cfg, files = nd.mc_files(containers, _spaces(containers, True), tag='_gen%d' % k,
